@@ -106,6 +106,7 @@ func gen(t *rapid.T) Case {
 	for len(defs) < nd {
 		defs = append(defs, projkit.GenDefFor(t, projkit.Opts{Projs: projkit.AllProjs, WithAxis: true, OnlyDatum: rapid.Bool().Draw(t, "onlydatum")}, lon, lat))
 	}
+	gridTwins := rapid.IntRange(0, 11).Draw(t, "gridtwins") == 5
 	for _, d := range defs {
 		s := d.String()
 		if rapid.IntRange(0, 9).Draw(t, "named") == 0 {
@@ -119,6 +120,13 @@ func gen(t *rapid.T) Case {
 				"+proj=aea +lat_1=30 +lat_2=-30 +ellps=GRS80 +towgs84=1,2,3", "+proj=stere +lat_0=90 +ellps=WGS84", "+proj=nosuchprojection +a=6378137 +b=6356752",
 				"+proj=eqdc +lat_1=0 +lat_0=0 +lon_0=0 +ellps=WGS84", "+proj=eqdc +lat_1=30 +lat_2=-30 +lat_0=0 +lon_0=0 +ellps=WGS84", "+proj=lcc +lat_1=0 +lat_0=0 +lon_0=0 +ellps=WGS84",
 				"+proj=aea +lat_1=0 +lat_0=0 +lon_0=0 +ellps=WGS84"}).Draw(t, "unb")
+			unbuildable = true
+			c.Unbuildable = true
+		}
+		if gridTwins && len(c.Defs) < 2 {
+			// two references on one grid-shift datum (the library parses +nadgrids but does not apply grids: a transformer
+			// between the two works, because the datums are the same, every transformer to or from another datum fails)
+			s = []string{"+proj=longlat +ellps=bessel +nadgrids=foo.gsb +no_defs", "+proj=longlat +ellps=bessel +nadgrids=foo.gsb +pm=paris +no_defs"}[len(c.Defs)]
 			unbuildable = true
 			c.Unbuildable = true
 		}
